@@ -475,6 +475,13 @@ func (renderEngine) Run(ops []string) (ans []string, oracle []string) {
 		} else {
 			oracle = append(oracle, "C19 harness: the handler never ran")
 		}
+		// the response is done and recorded: whoever owns it now (a logging or compressing wrapper, a test) may edit
+		// the header values IN PLACE; the header values of a response are its own, so no later response may notice
+		for _, vs := range rec.hdr {
+			for k := range vs {
+				vs[k] = "edited-after-the-response/" + vs[k]
+			}
+		}
 		lines = nil
 		pending = false
 	}
